@@ -192,6 +192,12 @@ def quiesce(cls, tag='q3'):
     return cross(cls, [QUIET, MODES + ('UPG', 'DNG'), MODES], tag)
 
 
+def opt_quiesce():
+    """optimistic readers / PrepareRead against a writer that waits for everybody to queue up, leaves, waits again and comes back,
+    and a shared holder that stays until the others are quiet"""
+    return cross('opt', [('PRV', 'GTS', 'GTX', 'GVV'), ('XqX', 'XqQX', 'DNGq', 'Xq'), ('Sq', 'SIXq', 'S', 'SIX')], 'oq3')
+
+
 def twolock_follow(cls, tag='tl'):
     """one thread uses lock 1 (while another thread queues up behind it or shares it) and then lock 2: whatever a lock keeps
     per thread (MCS: the cached queue node with its link and flag bits) is carried from one lock to the next"""
@@ -296,6 +302,9 @@ def script(name, g, lock=1):
     if name == 'XqX':
         x, y = a(), a()
         return 'X:x%d:%d Q U:x%d X:x%d:%d U:x%d' % (x, lock, x, y, lock, y)
+    if name == 'XqQX':
+        x, y = a(), a()
+        return 'X:x%d:%d Q U:x%d Q X:x%d:%d U:x%d' % (x, lock, x, y, lock, y)
     if name == 'XX':
         x, y = a(), a()
         return 'X:x%d:%d U:x%d X:x%d:%d U:x%d' % (x, lock, x, y, lock, y)
